@@ -49,6 +49,11 @@ def run(ctx):
     ctx.formula('FORMULA', 'ts_ext == i*dt for i in 0..tchans', fi, r.ret,
                 ctx.spec(fi, 'SEQ(0, self.dt, self.tchans + 1)'), node=fi.node, construct='return ts_ext')
 
+    r, I = ctx.run(fi, expand=False)
+    ctx.formula('FORMULA', 'ts_ext continues the frame\'s CURRENT time axis by one dt (also when the axis is temporarily shifted)', fi,
+                r.ret, ctx.spec(fi, 'np.append(self.ts, self.ts[-1] + self.dt)', I=ctx.interp(expand=False)), node=fi.node,
+                construct='return ts_ext [relative to ts]')
+
     # ---- D3 conversions
     ctx.clause = 'D3'
     fi = ctx.func('frame.Frame.get_index')
@@ -114,6 +119,30 @@ def run(ctx):
     ctx.require(st, 'from_backend_params no longer computes df')
     ctx.formula('AGREE', 'from_backend_params.df == params_from_backend.df', fi2, st[-1].data['value'],
                 ctx.spec(fi2, 'sample_rate / num_branches / fftlength'), node=st[-1].node)
+
+    from .common import agree_ref
+    REF_FBP = """
+def from_backend_params(cls, fchans=None, obs_length=300, sample_rate=3e9, num_branches=1024, fftlength=1048576, int_factor=51,
+                        fch1=6*u.GHz, ascending=False, data=None, seed=None):
+    chan_bw = sample_rate / num_branches
+    df = chan_bw / fftlength
+    if data is not None:
+        tchans, fchans = data.shape
+    elif fchans is None:
+        raise ValueError("Value not given for fchans")
+    param_dict = params_from_backend(obs_length=obs_length, sample_rate=sample_rate, num_branches=num_branches,
+                                     fftlength=fftlength, int_factor=int_factor)
+    if data is not None:
+        assert param_dict['tchans'] == tchans
+    frame = cls(fchans=fchans, **param_dict, fch1=fch1, ascending=ascending, data=data, seed=seed)
+    return frame
+"""
+    for dcase, dargs in (('no data', {'data': T.NONE}), ('with data', {})):
+        if dcase == 'with data':
+            T.NOTNONE.add('data')
+        agree_ref(ctx, fi2, REF_FBP, f'from_backend_params[{dcase}]: every argument (incl. the orientation flag) reaches the constructor',
+                  what=('calls', 'raises'), args=dargs, no_inline=('frame.Frame.__init__',))
+    T.NOTNONE.discard('data')
 
     # ---- D7 constructor routes agree on (tchans, fchans)
     ctx.clause = 'D7'
